@@ -23,7 +23,7 @@ Ctr(c, app, nf) == [id |-> <<105, 100, 48 + c>>, name |-> <<110, 48 + c>>, image
                     frames |-> [j \in 1..nf |-> [typ |-> 1 + (j % 2), ts |-> <<Base + Times(c)[j], 0>>, msg |-> Msg(c, j), raw |-> FALSE]]]
 M(lb, op, v) == [label |-> lb, op |-> op, val |-> v, re |-> REps]
 Sels == { <<>>, <<M(APP, "eq", A)>>, <<M(APP, "neq", A)>>, <<M(S_container, "eq", <<110, 49>>)>> }
-        \cup (IF Pools = "full" THEN { <<M(APP, "eq", <<>>)>>, <<M(APP, "re", <<97, 124, 98>>) @@ [re |-> RAlt(RLit(97), RLit(98))]>> } ELSE {})
+        \cup (IF Pools = "full" THEN { <<M(APP, "eq", <<>>)>>, <<[label |-> APP, op |-> "re", val |-> ReText(RAlt(RLit(97), RLit(98))), re |-> RAlt(RLit(97), RLit(98))]>> } ELSE {})
 Line(op, v) == [t |-> "line", op |-> op, val |-> v, re |-> REps]
 StagePool == { <<>>, <<Line("eq", <<45, 49>>)>>, <<Line("neq", <<99, 49>>)>>,
                <<[t |-> "label", pred |-> [t |-> "m", label |-> APP, op |-> "eq", val |-> B, lit |-> <<>>, re |-> REps]]>> }
